@@ -254,7 +254,7 @@ int main(int argc, char ** argv)
 	long faultRuns = 0, faultsFired = 0;
 	while(std::getline(std::cin, line)) {
 		if(! parseScript(line, script)) continue;
-		armWatchdog(20);
+		armWatchdog(60);
 		if(faultMode) {
 			for(long k = 1; k < 64; ++k) {
 				for(int o = 1; o <= MaxO; ++o) O[o] = 0;
